@@ -8,22 +8,52 @@ package bitstr
 // ---- C09 / C19: bit strings ----
 
 //@ func New returns (r)
+//@   requires 0 <= fromBit && fromBit <= toBit && int(toBit) <= 8 * len(s) && len(s) < 1<<26
+//@   ensures validBS(r) && nbits(r) == int(toBit) - 8 * int(fromBit >> 3)
+//@   ensures forall j int :: 0 <= j && j < nbits(r) ==> bbit(r, j) == uint8(sbit(s, int32(8 * int(fromBit >> 3) + j)))
 //@   ensures fresh(r)
 //@   assigns nothing
+//@   split toBit & 7 0 7
 
 //@ func Len returns (r)
+//@   requires validBS(bs)
+//@   ensures int(r) == nbits(bs)
 //@   assigns nothing
+//@   use pc8_mask(bs[len(bs)-1])
 
+// Cmp: the sign of the lexicographic comparison of the two bit strings (lexEnc: decided by the
+// first differing bit fdEnc, a proper prefix sorting first).
 //@ func Cmp returns (r)
+//@   requires validBS(a) && validBS(b)
+//@   ensures r == lexEnc(a, b)
 //@   assigns nothing
+//@   use fdEnc_unique(a, b, fdFromByte(a, b, fdB(a, b), len(a) - 1))
+//@   use byte_lt_bit(a[fdB(a, b)], b[fdB(a, b)])
+//@   use fdEnc_unique(a, b, fdFromByte(a, b, fdB(a[:len(a)-1], b[:len(b)-1]), min2(len(a) - 1, len(b) - 1)))
+//@   use byte_lt_bit(a[fdB(a[:len(a)-1], b[:len(b)-1])], b[fdB(a[:len(a)-1], b[:len(b)-1])])
 
 //@ func cmpBytes returns (r)
+//@   requires len(a) <= len(b)
+//@   ensures r == lexB(a, b)
 //@   assigns nothing
+//@   useret fdB_unique(a, b, i)
 //@   loop 1
-//@     invariant true
+//@     invariant 0 <= i && i <= la && la == len(a) && lb == len(b)
+//@     invariant forall k int :: 0 <= k && k < i ==> a[k] == b[k]
 
+// CmpUpto: sign of comparing the first nbits(b) bits of the plain bytes a (all of a when
+// shorter) with b's bit string (lexUpto, decided by the first differing bit fdUpto).
 //@ func CmpUpto returns (r)
+//@   requires validBS(b) && len(a) < 1<<27
+//@   ensures r == lexUpto(a, b)
 //@   assigns nothing
+//@   use fdUpto_unique(a, b, ite(fdB(a, b[:len(b)-1]) < len(a), 8 * fdB(a, b[:len(b)-1]) + lz8u(a[fdB(a, b[:len(b)-1])] ^ b[fdB(a, b[:len(b)-1])]), mUpto(a, b)))
+//@   use byte_lt_bit(a[fdB(a, b[:len(b)-1])], b[fdB(a, b[:len(b)-1])])
+//@   use fdUpto_unique(a, b, ite(fdB(a[:len(b)-2], b[:len(b)-2]) < len(b) - 2, 8 * fdB(a[:len(b)-2], b[:len(b)-2]) + lz8u(a[fdB(a[:len(b)-2], b[:len(b)-2])] ^ b[fdB(a[:len(b)-2], b[:len(b)-2])]), ite(a[len(b)-2] & b[len(b)-1] != b[len(b)-2], 8 * (len(b) - 2) + lz8u((a[len(b)-2] & b[len(b)-1]) ^ b[len(b)-2]), mUpto(a, b))))
+//@   use byte_lt_bit(a[fdB(a[:len(b)-2], b[:len(b)-2])], b[fdB(a[:len(b)-2], b[:len(b)-2])])
+//@   use byte_lt_bit(a[len(b)-2] & b[len(b)-1], b[len(b)-2])
 
 //@ func StrCmpUpto returns (r)
+//@   requires validBS(b) && len(a) < 1<<27
+//@   ensures r == lexUpto(a, b)
 //@   assigns nothing
